@@ -11,7 +11,7 @@ from msa.facts import AnalysisBroken
 from . import common
 
 MF = 'muscle::muscle_private::MessageField'
-FN_RE = r'^muscle::(Message|muscle_private::|.*DataArray|String|ByteBuffer|Point|Rect|Tuple|FixedSize|PrimitiveType|FlatCountableRef|VariableSize|DataFlattenerHelper|DataUnflattenerHelper|PseudoFlattenable|GetMessageFromPool|GetFlattenedSizeForFixedSizeType)'
+FN_RE = r'^muscle::(Message|muscle_private::|.*DataArray|String|ByteBuffer|Point|Rect|Tuple|FixedSize|PrimitiveType|FlatCountableRef|VariableSize|DataFlattenerHelper|DataUnflattenerHelper|PseudoFlattenable|GetMessageFromPool|GetFlattenedSizeForFixedSizeType|HashtableBase::ComputeTableIndexTypeForTableSize)'
 
 
 def find(fx, cls, name, consts=None):
@@ -428,6 +428,7 @@ def run(res, tier):
     item_size_at_use_rule(res, fx, tcs)
     restore_only_reads_rule(res, fx)
     equal_by_content_rule(res, fx)
+    index_sentinel_rule(res, fx)
     res.explanation = ('Static decision of the size/shape half of C01 by symbolic evaluation (no code is run): a small abstract interpreter over the resolved AST turns every serialiser into a polynomial over '
                        'symbolic counts and sub-object sizes (Write*/Read* widths, for/iterator loops as sums, null/flag tests as alternatives, virtual calls resolved in the concrete class, switch tables evaluated '
                        'under the type-code constraint) and requires exact equality between Flatten and FlattenedSize for all %d array classes, all %d single-item type codes and the five container/value classes; '
@@ -617,6 +618,29 @@ def restore_only_reads_rule(res, fx):
                        'equality, checksum and re-serialised bytes change)' % (f.q, (bad.get('q') or '').split('::')[-1] if bad is not None else ''))
     if n < 2:
         raise AnalysisBroken('RESTORE-VERBATIM: Point::Unflatten / Rect::Unflatten not found (%d)' % n)
+
+
+def index_sentinel_rule(res, fx, rule='INDEX-SENTINEL'):
+    """Message keeps its fields in a Hashtable whose slot indices are 8, 16 or 32 bits wide; (uintN)-1 is the "no slot" sentinel, so an N-bit index may serve tables of at most 2^N - 1 slots"""
+    res.rule(rule, 'HashtableBase::ComputeTableIndexTypeForTableSize selects the 8-bit (16-bit) slot index only for table sizes whose largest slot number is below the sentinel 255 (65535): '
+                   'read from its comparisons `tableSize >= K` / `> K`, the largest size that still gets the narrow index is at most 2^N - 1', floor=1)
+    fs = [f for f in fx.funcs.values() if f.full and f.q.endswith('::ComputeTableIndexTypeForTableSize')]
+    if not fs:
+        raise AnalysisBroken('%s: ComputeTableIndexTypeForTableSize has no analysed body' % rule)
+    f = fs[0]
+    p0 = f.params[0]['d'] if f.params else None
+    ks = []
+    for c in f.walk():
+        for (l_, op_, r_) in (A.rel_forms(c, True) if c['k'] == 'BinaryOperator' else []):
+            if l_['k'] == 'DeclRefExpr' and l_.get('d') == p0 and r_.get('v') is not None and op_ in ('>', '>='):
+                ks.append(r_['v'] - 1 if op_ == '>=' else r_['v'])        # largest size that does NOT take the wider index
+    ks = sorted(set(ks))
+    if len(ks) != 2:
+        raise AnalysisBroken('%s: expected two size thresholds in ComputeTableIndexTypeForTableSize, found %s' % (rule, ks))
+    ok = ks[0] <= 255 and ks[1] <= 65535
+    res.ob(rule, f.where(), 'the narrow slot indices never have to represent their own sentinel', ok, function=f.q, key='%s|thresholds' % rule, how='largest table with 8-bit index: %d slots, with 16-bit index: %d slots' % tuple(ks),
+           message='ComputeTableIndexTypeForTableSize gives a table of %d slots the 8-bit index and one of %d slots the 16-bit index: the last slot number equals (uintN)-1, the "no slot" sentinel, so '
+                   'the table\'s lists are corrupted — Message::Unflatten sizes the field table to exactly the entry count, so a Message with exactly 256 (65536) fields cannot be parsed back (crash)' % tuple(ks))
 
 
 def equal_by_content_rule(res, fx, rule='EQ-CONTENT'):
